@@ -112,6 +112,14 @@ func checkC06(ctx *Ctx) {
 				}
 				inputs = append(inputs, s)
 			}
+			// a non-ASCII rune inside an accepted version / range text (incl. runes whose case
+			// mapping changes the UTF-8 length): no operation may panic on them
+			for k, t := range p.Strs {
+				inputs = append(inputs, nonASCIIInside(r, t))
+				if k%3 == 0 {
+					inputs = append(inputs, nonASCIIInside(r, genRange(r, e.Name, p)))
+				}
+			}
 			var okV []any
 			var okR []any
 			local := 0
@@ -352,6 +360,14 @@ func checkC06(ctx *Ctx) {
 			}
 		}
 		cases = append(cases, nil, []string{}, []string{"\x00"}, []string{"npm", "sort", strings.Repeat("9", 20000)})
+		// failing invocations whose offending argument is a run of multi-byte runes: diagnostics
+		// are built from the argument, and byte and rune counts differ
+		for _, name := range names {
+			for _, n := range []int{10, 30, 45, 60, 90, 130, 250} {
+				u := r.Pick([]string{"é", "漢", "😀"})
+				cases = append(cases, []string{name, "compare", strings.Repeat(u, n), "1.0.0"}, []string{name, "contains", ">=1.0.0", strings.Repeat(u, n)}, []string{name, "sort", "1.0.0", strings.Repeat(u, n)})
+			}
+		}
 		outs, err := cliBatch(cases)
 		if err != nil {
 			res.Notes = append(res.Notes, err.Error())
